@@ -11,6 +11,7 @@ import (
 	"net"
 	"os"
 	"runtime"
+	"runtime/pprof"
 	"testing"
 	"time"
 
@@ -25,6 +26,12 @@ import (
 func TestMain(m *testing.M) {
 	sim.Quiet()
 	code := m.Run()
+	if path := os.Getenv("VERIF_DEBUG_GOROUTINES"); path != "" {
+		if f, err := os.Create(path); err == nil {
+			pprof.Lookup("goroutine").WriteTo(f, 1)
+			f.Close()
+		}
+	}
 	os.RemoveAll(sim.TmpRoot())
 	os.Exit(code)
 }
@@ -179,7 +186,13 @@ func runFrameCase(c *FrameCase) (*frameOutcome, error) {
 	}
 	stream = append(stream, c.Junk...)
 	sample := func() {
-		if h := heapNow(); h > out.peak {
+		h := heapNow()
+		if h > out.base && h-out.base > uint64(memConst)+uint64(memPerByte)*uint64(out.sent) {
+			// HeapAlloc counts garbage that is not collected yet (the harness's own, too): only what survives a collection is held
+			runtime.GC()
+			h = heapNow()
+		}
+		if h > out.peak {
 			out.peak = h
 		}
 	}
